@@ -552,7 +552,7 @@ fn run_one_sys(id: &str, layout: &Layout, labels: &[Lbl], fault: usize, sleep: &
 // system-call level: one event per wake-up, a reset = the tablet switch going on and off within one wake-up. The result
 // has the shape of a direct walk - per event what was WRITTEN to the virtual keyboard after it was read, plus the state
 // and the repeat request of the shadow mapper that is given the same events - and is judged by the same MapperTrace.tla.
-pub fn walk_via_loop(layout: &Layout, history: &[(Option<Event>, Vec<Event>)], noise: u8) -> Vec<Value> {
+fn walk_run(layout: &Layout, history: &[(Option<Event>, Vec<Event>)], noise: u8) -> (Sys, std::thread::Result<Result<(), String>>) {
   let mut labels: Vec<Lbl> = vec![];
   for (h, unseen) in history {
     match h {
@@ -577,6 +577,18 @@ pub fn walk_via_loop(layout: &Layout, history: &[(Option<Event>, Vec<Event>)], n
   let r = std::panic::catch_unwind(std::panic::AssertUnwindSafe(|| crate::remapping_loop::verif::run_real_driver(kfd, wfd, Some(tfd), lay)));
   let sys = sys_take();
   unsafe { libc::close(kfd); libc::close(tfd); libc::close(wfd); }
+  (sys, r)
+}
+
+// the same run written as a call trace for LoopTrace.tla
+pub fn walk_via_loop_trace(id: &str, layout: &Layout, history: &[(Option<Event>, Vec<Event>)], noise: u8, out: &mut dyn Write) {
+  let (mut sys, r) = walk_run(layout, history, noise);
+  for rec in sys.d.log.iter_mut() { if let Some(o) = rec.as_object_mut() { o.remove("st"); } }
+  write_trace(id, layout, 0, &[], &sys.d, r, json!({"mode": "sys", "slack": 999, "errtext": false, "noise": noise, "werr": 5}), out);
+}
+
+pub fn walk_via_loop(layout: &Layout, history: &[(Option<Event>, Vec<Event>)], noise: u8) -> Vec<Value> {
+  let (sys, r) = walk_run(layout, history, noise);
   let mut out: Vec<Value> = vec![];
   let mut cur: Option<Value> = None;
   for rec in &sys.d.log {
